@@ -2,12 +2,17 @@ module verifharness
 
 go 1.22
 
-require src.elv.sh v0.0.0
+require (
+	go.etcd.io/bbolt v1.3.10
+	src.elv.sh v0.0.0
+)
 
 require (
 	github.com/mattn/go-isatty v0.0.20 // indirect
+	github.com/sourcegraph/jsonrpc2 v0.2.0 // indirect
 	golang.org/x/sync v0.8.0 // indirect
 	golang.org/x/sys v0.24.0 // indirect
+	pkg.nimblebun.works/go-lsp v1.1.0 // indirect
 )
 
 replace src.elv.sh => /repo
